@@ -218,6 +218,18 @@ thread_local! {
     pub static CHUNK_POLICY: std::cell::Cell<usize> = const { std::cell::Cell::new(0) };
 }
 
+/// policies at or above this value mean: one byte per call for the first `policy - SWITCH_BASE` calls of the
+/// execution, as much as fits afterwards (the stream then ends / a message completes exactly at call number
+/// `policy - SWITCH_BASE + 1`: counters of consecutive pipe calls hidden in the code are hit at their threshold)
+pub const SWITCH_BASE: usize = 1_000_000;
+thread_local! {
+    pub static CHUNK_CALLS: std::cell::Cell<usize> = const { std::cell::Cell::new(0) };
+}
+/// to be called at the start of every execution
+pub fn reset_chunk_calls() {
+    CHUNK_CALLS.with(|c| c.set(0));
+}
+
 /// chunk size for a pipe call that may move 1..=max bytes
 pub fn chunk_point(max: usize) -> usize {
     let c = point(max);
@@ -227,7 +239,22 @@ pub fn chunk_point(max: usize) -> usize {
 /// the size that choice `c` (0-based, `c < max`) stands for under the current policy
 pub fn size_for_choice(max: usize, c: usize) -> usize {
     let pol = CHUNK_POLICY.with(|c| c.get());
-    let d = if pol == 0 { max } else { pol.min(max) };
+    let d = if pol >= SWITCH_BASE {
+        let calls = CHUNK_CALLS.with(|c| {
+            let v = c.get();
+            c.set(v + 1);
+            v
+        });
+        if calls < pol - SWITCH_BASE {
+            1
+        } else {
+            max
+        }
+    } else if pol == 0 {
+        max
+    } else {
+        pol.min(max)
+    };
     if c == 0 {
         return d;
     }
